@@ -21,6 +21,20 @@ inductive GapPos : St → List Level → Prop where
   | finishInArray (psv xs pnm rest) : GapPos .finish (⟨.arrayAdd, psv, .arr xs, pnm⟩ :: rest)
   | finishInObject (psv kvs k rest) : GapPos .finish (⟨.objectValueAdd, psv, .obj kvs, some k⟩ :: rest)
 
+def Act.isErr : Act → Bool
+  | .err _ _ _ => true
+  | _ => false
+
+theorem run_err_of_isErr (lc : Libc) (t : Tok) (l : Loc) (hv : NoVal t) (b : UInt8)
+    (h : (feed lc t l b).isErr = true) (c : UInt8) (off : Nat) (rs : Bytes) : ErrStop (run lc t l c off (b :: rs)) := by
+  have hpk : peek t l b = some l := by simp [peek, hv.validate]
+  cases hf : feed lc t l b with
+  | err pe t' l' => exact ⟨pe, by simp only [run, hpk, hf]⟩
+  | consume _ _ => rw [hf] at h; cases h
+  | redo _ _ => rw [hf] at h; cases h
+  | done _ _ => rw [hf] at h; cases h
+  | fault _ => rw [hf] at h; cases h
+
 theorem run_err_of_feed (lc : Libc) (t : Tok) (l : Loc) (hv : NoVal t) (b : UInt8) (pe : PErr) (t' : Tok) (l' : Loc)
     (h : feed lc t l b = .err pe t' l') (c : UInt8) (off : Nat) (rs : Bytes) : ErrStop (run lc t l c off (b :: rs)) := by
   have hpk : peek t l b = some l := by simp [peek, hv.validate]
@@ -30,44 +44,39 @@ theorem run_err_of_feed (lc : Libc) (t : Tok) (l : Loc) (hv : NoVal t) (b : UInt
 theorem slash_err (lc : Libc) (t : Tok) (l : Loc) (hv : NoVal t) (hst : t.strict = true)
     (sv : St) (cur : JVal) (nm : Option Bytes) (rest : List Level) (hs : t.stack = ⟨.eatws, sv, cur, nm⟩ :: rest)
     (hp : GapPos sv rest) (c : UInt8) (off : Nat) (rs : Bytes) : ErrStop (run lc t l c off (47 :: rs)) := by
-  have hst' := hst
-  simp only [Tok.strict, ne_eq, decide_not, Bool.not_eq_eq_eq_not, Bool.not_true, decide_eq_false_iff_not, Decidable.not_not] at hst'
-  have : ∃ pe t' l', feed lc t l 47 = .err pe t' l' := by
+  have hst' : ¬ t.flags &&& Generated.tokenerStrict = 0 := by simpa [Tok.strict] using hst
+  have : (feed lc t l 47).isErr = true := by
     cases hp with
-    | start _ => exact ⟨_, _, _, by simp [feed, fuel, feedN, disp, hs, dEatws, dStart, isWs, isDigit, setTop, hst]; rfl⟩
-    | arraySep _ => exact ⟨_, _, _, by simp [feed, fuel, feedN, disp, hs, dEatws, dArraySep, isWs, setTop, hst]; rfl⟩
-    | objectSep _ => exact ⟨_, _, _, by simp [feed, fuel, feedN, disp, hs, dEatws, dObjectSep, isWs, setTop, hst]; rfl⟩
-    | objectFieldStart _ => exact ⟨_, _, _, by simp [feed, fuel, feedN, disp, hs, dEatws, dObjectFieldStart, isWs, setTop, hst]; rfl⟩
+    | start _ => simp [feed, fuel, feedN, disp, hs, dEatws, dStart, isWs, isDigit, setTop, Tok.strict, hst', Act.isErr]
+    | arraySep _ => simp [feed, fuel, feedN, disp, hs, dEatws, dArraySep, isWs, setTop, Tok.strict, hst', Act.isErr]
+    | objectSep _ => simp [feed, fuel, feedN, disp, hs, dEatws, dObjectSep, isWs, setTop, Tok.strict, hst', Act.isErr]
+    | objectFieldStart _ => simp [feed, fuel, feedN, disp, hs, dEatws, dObjectFieldStart, isWs, setTop, Tok.strict, hst', Act.isErr]
     | objectFieldStartAfterSep _ =>
-      exact ⟨_, _, _, by simp [feed, fuel, feedN, disp, hs, dEatws, dObjectFieldStart, isWs, setTop, hst]; rfl⟩
-    | objectFieldEnd _ => exact ⟨_, _, _, by simp [feed, fuel, feedN, disp, hs, dEatws, dObjectFieldEnd, isWs, setTop, hst]; rfl⟩
+      simp [feed, fuel, feedN, disp, hs, dEatws, dObjectFieldStart, isWs, setTop, Tok.strict, hst', Act.isErr]
+    | objectFieldEnd _ => simp [feed, fuel, feedN, disp, hs, dEatws, dObjectFieldEnd, isWs, setTop, Tok.strict, hst', Act.isErr]
     | array _ =>
       by_cases hd : (rest.length : Int) ≥ (t.maxDepth : Int) - 1
-      · exact ⟨_, _, _, by simp [feed, fuel, feedN, disp, hs, dEatws, dArray, pushLevel, isWs, setTop, hst, hd]; rfl⟩
-      · by_cases hd2 : rest.length + 1 ≥ t.maxDepth
-        · omega
-        · exact ⟨_, _, _, by
-            simp [feed, fuel, feedN, disp, hs, dEatws, dArray, dStart, pushLevel, isWs, isDigit, setTop, hst, hd, hd2, freshLevel]; rfl⟩
+      · simp [feed, fuel, feedN, disp, hs, dEatws, dArray, pushLevel, isWs, setTop, Tok.strict, hst', hd, Act.isErr]
+      · have hd2 : ¬ (rest.length + 1 ≥ t.maxDepth) := by omega
+        simp [feed, fuel, feedN, disp, hs, dEatws, dArray, dStart, pushLevel, isWs, isDigit, setTop, Tok.strict, hst', hd, hd2,
+          freshLevel, Act.isErr]
     | arrayAfterSep _ =>
       by_cases hd : (rest.length : Int) ≥ (t.maxDepth : Int) - 1
-      · exact ⟨_, _, _, by simp [feed, fuel, feedN, disp, hs, dEatws, dArray, pushLevel, isWs, setTop, hst, hd]; rfl⟩
-      · by_cases hd2 : rest.length + 1 ≥ t.maxDepth
-        · omega
-        · exact ⟨_, _, _, by
-            simp [feed, fuel, feedN, disp, hs, dEatws, dArray, dStart, pushLevel, isWs, isDigit, setTop, hst, hd, hd2, freshLevel]; rfl⟩
+      · simp [feed, fuel, feedN, disp, hs, dEatws, dArray, pushLevel, isWs, setTop, Tok.strict, hst', hd, Act.isErr]
+      · have hd2 : ¬ (rest.length + 1 ≥ t.maxDepth) := by omega
+        simp [feed, fuel, feedN, disp, hs, dEatws, dArray, dStart, pushLevel, isWs, isDigit, setTop, Tok.strict, hst', hd, hd2,
+          freshLevel, Act.isErr]
     | objectValue _ =>
       by_cases hd : (rest.length : Int) ≥ (t.maxDepth : Int) - 1
-      · exact ⟨_, _, _, by simp [feed, fuel, feedN, disp, hs, dEatws, pushLevel, isWs, setTop, hst, hd]; rfl⟩
-      · by_cases hd2 : rest.length + 1 ≥ t.maxDepth
-        · omega
-        · exact ⟨_, _, _, by
-            simp [feed, fuel, feedN, disp, hs, dEatws, dStart, pushLevel, isWs, isDigit, setTop, hst, hd, hd2, freshLevel]; rfl⟩
+      · simp [feed, fuel, feedN, disp, hs, dEatws, pushLevel, isWs, setTop, Tok.strict, hst', hd, Act.isErr]
+      · have hd2 : ¬ (rest.length + 1 ≥ t.maxDepth) := by omega
+        simp [feed, fuel, feedN, disp, hs, dEatws, dStart, pushLevel, isWs, isDigit, setTop, Tok.strict, hst', hd, hd2,
+          freshLevel, Act.isErr]
     | finishInArray psv xs pnm rest' =>
-      exact ⟨_, _, _, by simp [feed, fuel, feedN, disp, hs, dEatws, dFinish, dArraySep, isWs, setTop, hst]; rfl⟩
+      simp [feed, fuel, feedN, disp, hs, dEatws, dFinish, dArraySep, isWs, setTop, Tok.strict, hst', Act.isErr]
     | finishInObject psv kvs k rest' =>
-      exact ⟨_, _, _, by simp [feed, fuel, feedN, disp, hs, dEatws, dFinish, dObjectSep, isWs, setTop, hst]; rfl⟩
-  obtain ⟨pe, t', l', h⟩ := this
-  exact run_err_of_feed lc t l hv 47 pe t' l' h c off rs
+      simp [feed, fuel, feedN, disp, hs, dEatws, dFinish, dObjectSep, isWs, setTop, Tok.strict, hst', Act.isErr]
+  exact run_err_of_isErr lc t l hv 47 this c off rs
 
 /-- strict mode: a gap that contains a comment is a syntax error at every gap position -/
 theorem gap_err (lc : Libc) (t : Tok) (l : Loc) (hv : NoVal t) (hst : t.strict = true)
@@ -101,37 +110,38 @@ theorem gap_err (lc : Libc) (t : Tok) (l : Loc) (hv : NoVal t) (hst : t.strict =
 theorem sq_value_err (lc : Libc) (t : Tok) (l : Loc) (hv : NoVal t) (hst : t.strict = true)
     (cur : JVal) (nm : Option Bytes) (rest : List Level) (hs : t.stack = ⟨.eatws, .start, cur, nm⟩ :: rest)
     (c : UInt8) (off : Nat) (rs : Bytes) : ErrStop (run lc t l c off (39 :: rs)) := by
-  have : feed lc t l 39 = .err .unexpected { t with stack := ⟨.start, .start, cur, nm⟩ :: rest } l := by
-    simp [feed, fuel, feedN, disp, hs, dEatws, dStart, isWs, setTop, hst]
-  exact run_err_of_feed lc t l hv 39 _ _ _ this c off rs
+  have hst' : ¬ t.flags &&& Generated.tokenerStrict = 0 := by simpa [Tok.strict] using hst
+  have : (feed lc t l 39).isErr = true := by
+    simp [feed, fuel, feedN, disp, hs, dEatws, dStart, isWs, setTop, Tok.strict, hst', Act.isErr]
+  exact run_err_of_isErr lc t l hv 39 this c off rs
 
 /-- strict mode: a single quote where a member name starts -/
 theorem sq_name_err (lc : Libc) (t : Tok) (l : Loc) (hv : NoVal t) (hst : t.strict = true)
     (sv : St) (hsv : sv = .objectFieldStart ∨ sv = .objectFieldStartAfterSep)
     (cur : JVal) (nm : Option Bytes) (rest : List Level) (hs : t.stack = ⟨.eatws, sv, cur, nm⟩ :: rest)
     (c : UInt8) (off : Nat) (rs : Bytes) : ErrStop (run lc t l c off (39 :: rs)) := by
-  have : ∃ t', feed lc t l 39 = .err .keyName t' l := by
+  have hst' : ¬ t.flags &&& Generated.tokenerStrict = 0 := by simpa [Tok.strict] using hst
+  have : (feed lc t l 39).isErr = true := by
     rcases hsv with h | h <;> subst h <;>
-      exact ⟨_, by simp [feed, fuel, feedN, disp, hs, dEatws, dObjectFieldStart, isWs, setTop, hst]; rfl⟩
-  obtain ⟨t', h⟩ := this
-  exact run_err_of_feed lc t l hv 39 _ _ _ h c off rs
+      simp [feed, fuel, feedN, disp, hs, dEatws, dObjectFieldStart, isWs, setTop, Tok.strict, hst', Act.isErr]
+  exact run_err_of_isErr lc t l hv 39 this c off rs
 
 /-- strict mode: `]` directly after a comma -/
 theorem trailing_comma_array_err (lc : Libc) (t : Tok) (l : Loc) (hv : NoVal t) (hst : t.strict = true)
     (cur : JVal) (nm : Option Bytes) (rest : List Level) (hs : t.stack = ⟨.eatws, .arrayAfterSep, cur, nm⟩ :: rest)
     (c : UInt8) (off : Nat) (rs : Bytes) : ErrStop (run lc t l c off (93 :: rs)) := by
-  have : ∃ t', feed lc t l 93 = .err .unexpected t' l :=
-    ⟨_, by simp [feed, fuel, feedN, disp, hs, dEatws, dArray, isWs, setTop, hst]; rfl⟩
-  obtain ⟨t', h⟩ := this
-  exact run_err_of_feed lc t l hv 93 _ _ _ h c off rs
+  have hst' : ¬ t.flags &&& Generated.tokenerStrict = 0 := by simpa [Tok.strict] using hst
+  have : (feed lc t l 93).isErr = true := by
+    simp [feed, fuel, feedN, disp, hs, dEatws, dArray, isWs, setTop, Tok.strict, hst', Act.isErr]
+  exact run_err_of_isErr lc t l hv 93 this c off rs
 
 /-- strict mode: `}` directly after a comma -/
 theorem trailing_comma_object_err (lc : Libc) (t : Tok) (l : Loc) (hv : NoVal t) (hst : t.strict = true)
     (cur : JVal) (nm : Option Bytes) (rest : List Level) (hs : t.stack = ⟨.eatws, .objectFieldStartAfterSep, cur, nm⟩ :: rest)
     (c : UInt8) (off : Nat) (rs : Bytes) : ErrStop (run lc t l c off (125 :: rs)) := by
-  have : ∃ t', feed lc t l 125 = .err .unexpected t' l :=
-    ⟨_, by simp [feed, fuel, feedN, disp, hs, dEatws, dObjectFieldStart, isWs, setTop, hst]; rfl⟩
-  obtain ⟨t', h⟩ := this
-  exact run_err_of_feed lc t l hv 125 _ _ _ h c off rs
+  have hst' : ¬ t.flags &&& Generated.tokenerStrict = 0 := by simpa [Tok.strict] using hst
+  have : (feed lc t l 125).isErr = true := by
+    simp [feed, fuel, feedN, disp, hs, dEatws, dObjectFieldStart, isWs, setTop, Tok.strict, hst', Act.isErr]
+  exact run_err_of_isErr lc t l hv 125 this c off rs
 
 end JsonC.Tokener
